@@ -18,8 +18,8 @@ Rec == ndJsonDeserialize(IOEnv.TRACE)
 MaxFail == 40
 NCanon == 5    \* CanonSize is evaluated for n <= NCanon only
 
-VARIABLES l, nf, aux
-tvars == <<kind, n, l2v, hs, gcN, roN, l, nf, aux>>
+VARIABLES l, nf, aux, fl
+tvars == <<kind, n, l2v, hs, gcN, roN, l, nf, aux, fl>>
 
 Act(p) == ("ACT_" \o p) \in DOMAIN IOEnv
 O(p, name, ok) == IF Act(p) THEN <<p, name, ok>> ELSE <<p, name, TRUE>>
@@ -27,14 +27,20 @@ Has(r, f) == f \in DOMAIN r
 
 Ev(e) == l <= Len(Rec) /\ nf < MaxFail /\ Rec[l].ev = e
 
-Step(obs) ==
+(* TLC does not cache LET definitions at the action level (their value could
+   depend on primed variables), so everything expensive is computed inside
+   operators that are evaluated as the right-hand side of ONE primed
+   assignment: `fl` (names of the false obligations of the current event). *)
+FailNames(obs) ==
   LET bad == SelectSeq(obs, LAMBDA o : ~o[3])
-  IN  /\ l' = l + 1
-      /\ nf' = nf + (IF bad = <<>> THEN 0 ELSE 1)
-      /\ (bad # <<>>) =>
-           PrintT(<<"OBL_FAIL", l, [i \in 1 .. Len(bad) |-> <<bad[i][1], bad[i][2]>>]>>)
+  IN  [i \in 1 .. Len(bad) |-> <<bad[i][1], bad[i][2]>>]
+Step(obs) ==
+  /\ l' = l + 1
+  /\ fl' = FailNames(obs)
+  /\ nf' = nf + (IF fl' = <<>> THEN 0 ELSE 1)
+  /\ (fl' # <<>>) => PrintT(<<"OBL_FAIL", l, fl'>>)
 
-AuxInit == [fresh |-> FALSE, cnt |-> 0, afterGc |-> FALSE, gcSeen |-> 0, roSeen |-> 0]
+AuxInit == [fresh |-> FALSE, cnt |-> 0, afterGc |-> FALSE, afterRo |-> FALSE, gcSeen |-> 0, roSeen |-> 0]
 
 ----------------------------------------------------------------------------
 (* structural predicates on a node list in sub-graph form
@@ -106,50 +112,56 @@ TrReset ==
   /\ gcN' = 0 /\ roN' = 0 /\ aux' = AuxInit
   /\ Step(<<>>)
 
+(* ---- add_vars ---- *)
+AddVarsObs(r) ==
+  IF Has(r, "res") THEN << O("C16", "add_vars.panic", FALSE) >>
+  ELSE LET exp == l2v \o [i \in 1 .. r.k |-> n + i - 1]
+           good == IsPerm(r.l2v, n + r.k)
+       IN << O("C16", "add_vars.n", r.n = n + r.k /\ r.nl = r.n),
+             O("C16", "add_vars.range", r.range = <<n, n + r.k>>),
+             O("C16", "add_vars.order", r.l2v = exp),
+             O("C03", "perm", good /\ r.v2l = [i \in 1 .. n + r.k |-> InvPerm(r.l2v)[i - 1]]) >>
 TrAddVars ==
   /\ Ev("add_vars")
-  /\ LET r == Rec[l] IN
-     IF Has(r, "res")
-     THEN /\ Step(<< O("C16", "add_vars.panic", FALSE) >>)
-          /\ UNCHANGED <<kind, n, l2v, hs, gcN, roN, aux>>
-     ELSE LET exp == l2v \o [i \in 1 .. r.k |-> n + i - 1]
-              good == IsPerm(r.l2v, n + r.k)
-          IN  /\ Step(<< O("C16", "add_vars.n", r.n = n + r.k /\ r.nl = r.n),
-                         O("C16", "add_vars.range", r.range = <<n, n + r.k>>),
-                         O("C16", "add_vars.order", r.l2v = exp),
-                         O("C03", "perm", good /\ r.v2l = [i \in 1 .. n + r.k |-> InvPerm(r.l2v)[i - 1]]) >>)
-              /\ n' = n + r.k
-              /\ l2v' = IF good THEN r.l2v ELSE exp
-              /\ hs' = [s \in Live |-> [hs[s] EXCEPT !.v = Extend(kind, n, n + r.k, @)]]
-              /\ aux' = [aux EXCEPT !.fresh = FALSE]
-              /\ UNCHANGED <<kind, gcN, roN>>
+  /\ Step(AddVarsObs(Rec[l]))
+  /\ IF Has(Rec[l], "res")
+     THEN UNCHANGED <<kind, n, l2v, hs, gcN, roN, aux>>
+     ELSE /\ n' = n + Rec[l].k
+          /\ l2v' = IF IsPerm(Rec[l].l2v, n + Rec[l].k) THEN Rec[l].l2v
+                     ELSE l2v \o [i \in 1 .. Rec[l].k |-> n + i - 1]
+          /\ hs' = [s \in Live |-> [hs[s] EXCEPT !.v = Extend(kind, n, n + Rec[l].k, @)]]
+          /\ aux' = [aux EXCEPT !.fresh = FALSE]
+          /\ UNCHANGED <<kind, gcN, roN>>
 
+(* ---- operations ---- *)
+OpGraphOk(r) == GraphOk(r.g) /\ (r.e[1] < 0 \/ \E i \in 1 .. Len(r.g) : r.g[i][1] = r.e[1])
+(* denotation of the returned edge, by interpreting the logged sub-graph *)
+OpValue(r) ==
+  IF OpGraphOk(r)
+  THEN EdgeSemM(kind, n, SemMap(kind, n, l2v, r.g), r.e[1], r.e[2])
+  ELSE {}
+OpObs(r, val) ==
+  LET P == PropOfOp(r.op) IN
+  IF Has(r, "res") THEN << O(P, "failed:" \o r.op, FALSE) >>
+  ELSE
+    LET g == r.g
+        ok == OpGraphOk(r)
+    IN << O("C03", "op.graph", ok),
+          O(P, "sem:" \o r.op, ArgsLive(r) /\ val = Expected(r)),
+          O("C02", "eval", SeqToSet(r.tt) = val),
+          O("C01", "canon.op", \A s \in Live : (Val(s) = val) <=> (EdgeOf(s) = r.e)),
+          O("C03", "op.reduced", ok => (GraphOrdered(g) /\ \A i \in 1 .. Len(g) : NodeReduced(g[i]))),
+          O("C03", "op.nc", r.nc = Len(g) + Cardinality(TermIds(g, r.e))),
+          O("C03", "op.canonsize", n <= NCanon => r.nc = CanonSize(kind, n, l2v, val)) >>
 TrOp ==
   /\ Ev("op")
-  /\ LET r == Rec[l]
-         P == PropOfOp(r.op)
-     IN
-     IF Has(r, "res")
-     THEN /\ Step(<< O(P, "failed:" \o r.op, FALSE) >>)
-          /\ UNCHANGED <<kind, n, l2v, hs, gcN, roN>>
-          /\ aux' = [aux EXCEPT !.fresh = FALSE]
-     ELSE
-       LET g == r.g
-           ok == GraphOk(g) /\ (r.e[1] < 0 \/ \E i \in 1 .. Len(g) : g[i][1] = r.e[1])
-           m == IF ok THEN SemMap(kind, n, l2v, g) ELSE EmptyMap
-           val == IF ok THEN EdgeSemM(kind, n, m, r.e[1], r.e[2]) ELSE {}
-           exp == Expected(r)
-       IN
-       /\ Step(<< O("C03", "op.graph", ok),
-                  O(P, "sem:" \o r.op, ArgsLive(r) /\ val = exp),
-                  O("C02", "eval", SeqToSet(r.tt) = val),
-                  O("C01", "canon.op", \A s \in Live : (Val(s) = val) <=> (EdgeOf(s) = r.e)),
-                  O("C03", "op.reduced", ok => (GraphOrdered(g) /\ \A i \in 1 .. Len(g) : NodeReduced(g[i]))),
-                  O("C03", "op.nc", r.nc = Len(g) + Cardinality(TermIds(g, r.e))),
-                  O("C03", "op.canonsize", n <= NCanon => r.nc = CanonSize(kind, n, l2v, val)) >>)
-       /\ hs' = Put(r.h, r.e, val)
-       /\ aux' = [aux EXCEPT !.fresh = FALSE]
-       /\ UNCHANGED <<kind, n, l2v, gcN, roN>>
+  /\ IF Has(Rec[l], "res")
+     THEN /\ hs' = hs
+          /\ Step(OpObs(Rec[l], {}))
+     ELSE /\ hs' = Put(Rec[l].h, Rec[l].e, OpValue(Rec[l]))
+          /\ Step(OpObs(Rec[l], hs'[Rec[l].h].v))
+  /\ aux' = [aux EXCEPT !.fresh = FALSE]
+  /\ UNCHANGED <<kind, n, l2v, gcN, roN>>
 
 TrCofNone ==
   /\ Ev("cofnone")
@@ -170,49 +182,49 @@ TrDrop ==
 
 TrGc ==
   /\ Ev("gc")
-  /\ LET r == Rec[l] IN
-     /\ Step(<< O("C05", "gc.ret", r.ret = r.before - r.after),
-                O("C05", "gc.before", aux.fresh => r.before = aux.cnt) >>)
-     /\ aux' = [aux EXCEPT !.fresh = FALSE, !.afterGc = TRUE]
+  /\ Step(<< O("C05", "gc.ret", Rec[l].ret = Rec[l].before - Rec[l].after),
+             O("C05", "gc.before", aux.fresh => Rec[l].before = aux.cnt) >>)
+  /\ aux' = [aux EXCEPT !.fresh = FALSE, !.afterGc = TRUE]
   /\ Gc
 
+(* ---- reordering ---- *)
+ReorderObs(r) ==
+  IF Has(r, "res") THEN << O("C08", "reorder.panic", FALSE) >>
+  ELSE LET good == IsPerm(r.l2v, n) IN
+       << O("C08", "order.perm", good),
+          O("C08", "order.inverse", good => r.v2l = [i \in 1 .. n |-> InvPerm(r.l2v)[i - 1]]),
+          O("C08", "order.request", good => RespectsReq(r.l2v, r.req)),
+          O("C08", "order.minimal", (good /\ n <= 6) =>
+               Inversions(l2v, r.l2v) = MinInversions(r.req)) >>
 TrReorder ==
   /\ Ev("reorder")
-  /\ LET r == Rec[l] IN
-     IF Has(r, "res")
-     THEN /\ Step(<< O("C08", "reorder.panic", FALSE) >>)
-          /\ UNCHANGED <<kind, n, l2v, hs, gcN, roN, aux>>
-     ELSE LET good == IsPerm(r.l2v, n) IN
-          /\ Step(<< O("C08", "order.perm", good),
-                     O("C08", "order.inverse", good => r.v2l = [i \in 1 .. n |-> InvPerm(r.l2v)[i - 1]]),
-                     O("C08", "order.request", good => RespectsReq(r.l2v, r.req)),
-                     O("C08", "order.minimal", (good /\ n <= 6) =>
-                          Inversions(l2v, r.l2v) = MinInversions(r.req)) >>)
-          /\ l2v' = IF good THEN r.l2v ELSE l2v
+  /\ Step(ReorderObs(Rec[l]))
+  /\ IF Has(Rec[l], "res")
+     THEN UNCHANGED <<kind, n, l2v, hs, gcN, roN, aux>>
+     ELSE /\ l2v' = IF IsPerm(Rec[l].l2v, n) THEN Rec[l].l2v ELSE l2v
           /\ roN' = roN + 1
-          /\ aux' = [aux EXCEPT !.fresh = FALSE]
+          /\ aux' = [aux EXCEPT !.fresh = FALSE, !.afterRo = TRUE]
           /\ UNCHANGED <<kind, n, hs, gcN>>
 
-
-(* handles built by the harness through unlogged calls are adopted with the
-   denotation of their stored graph; hs: <<slot, id, tag>>, g: sub-graph *)
+(* ---- adoption of handles built through unlogged calls ----
+   hs: <<slot, id, tag>>, g: sub-graph; the handles get the denotation of
+   their stored graph *)
+AdoptOk(r) ==
+  GraphOk(r.g) /\ \A j \in 1 .. Len(r.hs) :
+     r.hs[j][2] < 0 \/ \E i \in 1 .. Len(r.g) : r.g[i][1] = r.hs[j][2]
+AdoptHs(r) ==
+  LET H == r.hs
+      J == 1 .. Len(H)
+      ok == AdoptOk(r)
+      m == IF ok THEN SemMap(kind, n, l2v, r.g) ELSE EmptyMap
+      new == [j \in J |-> [id |-> H[j][2], tag |-> H[j][3],
+                           v |-> IF ok THEN EdgeSemM(kind, n, m, H[j][2], H[j][3]) ELSE {}]]
+      idx == [s \in {H[j][1] : j \in J} |-> CHOOSE j \in J : H[j][1] = s]
+  IN  [s \in Live \cup DOMAIN idx |-> IF s \in DOMAIN idx THEN new[idx[s]] ELSE hs[s]]
 TrAdopt ==
   /\ Ev("adopt")
-  /\ LET r == Rec[l]
-         g == r.g
-         H == r.hs
-         J == 1 .. Len(H)
-         ok == GraphOk(g) /\ \A j \in J : H[j][2] < 0 \/ \E i \in 1 .. Len(g) : g[i][1] = H[j][2]
-         m == IF ok THEN SemMap(kind, n, l2v, g) ELSE EmptyMap
-         slotIdx(s) == CHOOSE j \in J : H[j][1] = s
-     IN
-     /\ Step(<< O("C03", "adopt.graph", ok) >>)
-     /\ hs' = [s \in Live \cup {H[j][1] : j \in J} |->
-                IF \E j \in J : H[j][1] = s
-                THEN LET j == slotIdx(s) IN
-                     [id |-> H[j][2], tag |-> H[j][3],
-                      v |-> IF ok THEN EdgeSemM(kind, n, m, H[j][2], H[j][3]) ELSE {}]
-                ELSE hs[s]]
+  /\ hs' = AdoptHs(Rec[l])
+  /\ Step(<< O("C03", "adopt.graph", AdoptOk(Rec[l])) >>)
   /\ aux' = [aux EXCEPT !.fresh = FALSE]
   /\ UNCHANGED <<kind, n, l2v, gcN, roN>>
 
@@ -223,83 +235,109 @@ TrConstructMismatch ==
   /\ Step(<< O("C02", "construct", FALSE) >>)
   /\ UNCHANGED <<kind, n, l2v, hs, gcN, roN, aux>>
 
-(* observations of all live handles:
-   <<slot, id, tag, tt, nc, eqclass, ordrank, satisfiable, valid>> *)
-TrObs ==
-  /\ Ev("obs")
-  /\ LET r == Rec[l]
-         H == r.hs
-         I == 1 .. Len(H)
-         known == \A i \in I : H[i][1] \in Live
-         V(i) == Val(H[i][1])
-         firstN == {i \in I : i <= r.eqn}
-         eqPairs == {<<r.eqp[k][1], r.eqp[k][2]>> : k \in 1 .. Len(r.eqp)}
-     IN
-     /\ Step(<< O("C01", "obs.slots", known),
-                O("C01", "obs.edge", known => \A i \in I : EdgeOf(H[i][1]) = <<H[i][2], H[i][3]>>),
-                O("C02", "obs.eval", known => \A i \in I : SeqToSet(H[i][4]) = V(i)),
-                O("C01", "obs.eqhash", known => \A i, j \in I : (H[i][6] = H[j][6]) <=> (V(i) = V(j))),
-                O("C01", "obs.ord", known => \A i, j \in I : (H[i][7] = H[j][7]) <=> (V(i) = V(j))),
-                O("C01", "obs.eq", known => \A i, j \in firstN : i < j =>
-                      ((<<H[i][1], H[j][1]>> \in eqPairs) <=> (V(i) = V(j)))),
-                O("C02", "obs.sat", known => \A i \in I : (H[i][8] <=> V(i) # {}) /\ (H[i][9] <=> V(i) = Asg(n))),
-                O("C03", "obs.canonsize", (known /\ n <= NCanon) =>
-                      \A i \in I : H[i][5] = CanonSize(kind, n, l2v, V(i))) >>)
+(* marker written before a call that the library may answer by aborting the
+   process (reordering, level creation); an `abort` event, appended by the
+   orchestrator when the driver process died, has no action *)
+TrBegin ==
+  /\ Ev("begin")
+  /\ Step(<<>>)
   /\ UNCHANGED <<kind, n, l2v, hs, gcN, roN, aux>>
 
-(* full snapshot: nodes <<id, lvlListed, lvlStored, rc, c0id, c0tag, c1id, c1tag>>
+(* summary line of a table replay (T binding): rows replayed / rows whose
+   result was not the canonical handle the table prescribes; the mismatching
+   rows themselves precede this event as ordinary `op` events *)
+TrRows ==
+  /\ Ev("rows")
+  /\ Step(<<>>)
+  /\ UNCHANGED <<kind, n, l2v, hs, gcN, roN, aux>>
+
+(* ---- observations of all live handles:
+   <<slot, id, tag, tt, nc, eqclass, ordrank, satisfiable, valid>> *)
+ObsObs(r) ==
+  LET H == r.hs
+      I == 1 .. Len(H)
+      known == \A i \in I : H[i][1] \in Live
+      V == [i \in I |-> IF known THEN Val(H[i][1]) ELSE {}]
+      firstN == {i \in I : i <= r.eqn}
+      eqPairs == {<<r.eqp[k][1], r.eqp[k][2]>> : k \in 1 .. Len(r.eqp)}
+  IN << O("C01", "obs.slots", known),
+        O("C01", "obs.edge", known => \A i \in I : EdgeOf(H[i][1]) = <<H[i][2], H[i][3]>>),
+        O("C02", "obs.eval", known => \A i \in I : SeqToSet(H[i][4]) = V[i]),
+        O("C01", "obs.eqhash", known => \A i, j \in I : (H[i][6] = H[j][6]) <=> (V[i] = V[j])),
+        O("C01", "obs.ord", known => \A i, j \in I : (H[i][7] = H[j][7]) <=> (V[i] = V[j])),
+        O("C01", "obs.eq", known => \A i, j \in firstN : i < j =>
+              ((<<H[i][1], H[j][1]>> \in eqPairs) <=> (V[i] = V[j]))),
+        O("C02", "obs.sat", known => \A i \in I : (H[i][8] <=> V[i] # {}) /\ (H[i][9] <=> V[i] = Asg(n))),
+        O("C03", "obs.canonsize", (known /\ n <= NCanon) =>
+              \A i \in I : H[i][5] = CanonSize(kind, n, l2v, V[i])) >>
+TrObs ==
+  /\ Ev("obs")
+  /\ Step(ObsObs(Rec[l]))
+  /\ UNCHANGED <<kind, n, l2v, hs, gcN, roN, aux>>
+
+(* ---- full snapshot: nodes <<id, lvlListed, lvlStored, rc, c0id, c0tag, c1id, c1tag>>
    deepest level first; hs <<slot, id, tag>> *)
+SnapObs(r) ==
+  LET N == r.nodes
+      I == 1 .. Len(N)
+      g == [i \in I |-> <<N[i][1], N[i][3], N[i][5], N[i][6], N[i][7], N[i][8]>>]
+      permOk == IsPerm(r.l2v, r.n) /\ r.nl = r.n
+      ok == GraphOk(g) /\ r.l2v = l2v /\ r.n = n
+      m == IF ok THEN SemMap(kind, n, l2v, g) ELSE EmptyMap
+      H == r.hs
+      J == 1 .. Len(H)
+      hOk == ok /\ \A j \in J : H[j][2] < 0 \/ H[j][2] \in DOMAIN m
+      stable == hOk /\ \A j \in J : H[j][1] \in Live =>
+                  (EdgeOf(H[j][1]) = <<H[j][2], H[j][3]>>
+                   /\ EdgeSemM(kind, n, m, H[j][2], H[j][3]) = Val(H[j][1]))
+      \* number of references a node should have: child edges of stored
+      \* nodes + handles + (ZBDD) the manager's own tautology chain
+      childIds == [k \in 1 .. 2 * Len(N) |-> N[(k + 1) \div 2][IF k % 2 = 1 THEN 5 ELSE 7]]
+      refs(id) == Cardinality({k \in 1 .. 2 * Len(N) : childIds[k] = id})
+                  + Cardinality({j \in J : H[j][2] = id})
+      below(lv) == {a \in Asg(n) : \A k \in 1 .. lv : ~Bit(a, l2v[k])}
+      internal(i) == IF kind = "zbdd" /\ m[N[i][1]] = below(N[i][3]) THEN 1 ELSE 0
+      norm(S) == IF kind = "bcdd" /\ 0 \in S THEN Asg(n) \ S ELSE S
+      levelsOk == \A i \in I : N[i][2] = N[i][3]
+      reducedOk == \A i \in I : NodeReduced(g[i])
+      nodupOk == Cardinality({<<N[i][2], N[i][5], N[i][6], N[i][7], N[i][8]>> : i \in I}) = Len(N)
+      semInj == ok => Cardinality({norm(m[N[i][1]]) : i \in I}) = Len(N)
+      rcOk == ok => \A i \in I : N[i][4] = refs(N[i][1]) + internal(i)
+  IN << O("C03", "snap.state", r.l2v = l2v /\ r.n = n),
+        O("C03", "snap.perm", permOk /\ (permOk => r.v2l = [i \in 1 .. r.n |-> InvPerm(r.l2v)[i - 1]])),
+        O("C03", "snap.graph", ok),
+        O("C03", "snap.levels", levelsOk),
+        O("C03", "snap.ordered", ok => GraphOrdered(g)),
+        O("C03", "snap.reduced", reducedOk),
+        O("C03", "snap.nodup", nodupOk),
+        O("C03", "snap.ninner", r.ninner = Len(N)),
+        O("C01", "snap.seminj", semInj),
+        O("C01", "snap.slots", {H[j][1] : j \in J} = Live),
+        O("C05", "snap.stable", stable),
+        O("C08", "snap.stable", stable),
+        O("C05", "snap.handles", hOk),
+        O("C05", "snap.rc", rcOk),
+        O("C08", "snap.wellformed", aux.afterRo =>
+              (ok /\ GraphOrdered(g) /\ levelsOk /\ reducedOk /\ nodupOk /\ semInj /\ rcOk)),
+        O("C05", "snap.gc.complete", (aux.afterGc /\ ok) => \A i \in I : N[i][4] > 0),
+        O("C05", "snap.gccount", r.gc >= gcN /\ r.gc >= aux.gcSeen),
+        O("C08", "snap.rocount", r.ro >= aux.roSeen /\ r.ro <= roN) >>
 TrSnap ==
   /\ Ev("snap")
-  /\ LET r == Rec[l]
-         N == r.nodes
-         I == 1 .. Len(N)
-         g == [i \in I |-> <<N[i][1], N[i][3], N[i][5], N[i][6], N[i][7], N[i][8]>>]
-         permOk == IsPerm(r.l2v, r.n) /\ r.nl = r.n
-         ok == GraphOk(g) /\ r.l2v = l2v /\ r.n = n
-         m == IF ok THEN SemMap(kind, n, l2v, g) ELSE EmptyMap
-         H == r.hs
-         J == 1 .. Len(H)
-         hOk == ok /\ \A j \in J : H[j][2] < 0 \/ H[j][2] \in DOMAIN m
-         hSem(j) == EdgeSemM(kind, n, m, H[j][2], H[j][3])
-         parents(id) == Cardinality({<<i, c>> \in I \X {5, 7} : N[i][c] = id})
-         handles(id) == Cardinality({j \in J : H[j][2] = id})
-         below(lv) == {a \in Asg(n) : \A k \in 1 .. lv : ~Bit(a, l2v[k])}
-         internal(i) == IF kind = "zbdd" /\ m[N[i][1]] = below(N[i][3]) THEN 1 ELSE 0
-         norm(S) == IF kind = "bcdd" /\ 0 \in S THEN Asg(n) \ S ELSE S
-     IN
-     /\ Step(<< O("C03", "snap.state", r.l2v = l2v /\ r.n = n),
-                O("C03", "snap.perm", permOk /\ (permOk => r.v2l = [i \in 1 .. r.n |-> InvPerm(r.l2v)[i - 1]])),
-                O("C03", "snap.graph", ok),
-                O("C03", "snap.levels", \A i \in I : N[i][2] = N[i][3]),
-                O("C03", "snap.ordered", ok => GraphOrdered(g)),
-                O("C03", "snap.reduced", \A i \in I : NodeReduced(g[i])),
-                O("C03", "snap.nodup",
-                      Cardinality({<<N[i][2], N[i][5], N[i][6], N[i][7], N[i][8]>> : i \in I}) = Len(N)),
-                O("C03", "snap.ninner", r.ninner = Len(N)),
-                O("C01", "snap.seminj", ok => Cardinality({norm(m[N[i][1]]) : i \in I}) = Len(N)),
-                O("C01", "snap.slots", {H[j][1] : j \in J} = Live),
-                O("C05", "snap.stable", hOk => \A j \in J : H[j][1] \in Live =>
-                      (EdgeOf(H[j][1]) = <<H[j][2], H[j][3]>> /\ hSem(j) = Val(H[j][1]))),
-                O("C08", "snap.stable", hOk => \A j \in J : H[j][1] \in Live =>
-                      (EdgeOf(H[j][1]) = <<H[j][2], H[j][3]>> /\ hSem(j) = Val(H[j][1]))),
-                O("C05", "snap.handles", hOk),
-                O("C05", "snap.rc", ok => \A i \in I :
-                      N[i][4] = parents(N[i][1]) + handles(N[i][1]) + internal(i)),
-                O("C05", "snap.gc.complete", (aux.afterGc /\ ok) => \A i \in I : N[i][4] > 0),
-                O("C05", "snap.gccount", r.gc >= gcN /\ r.gc >= aux.gcSeen),
-                O("C08", "snap.rocount", r.ro >= aux.roSeen /\ r.ro <= roN) >>)
-     /\ aux' = [fresh |-> TRUE, cnt |-> Len(N), afterGc |-> FALSE, gcSeen |-> r.gc, roSeen |-> r.ro]
+  /\ Step(SnapObs(Rec[l]))
+  /\ aux' = [fresh |-> TRUE, cnt |-> Len(Rec[l].nodes), afterGc |-> FALSE, afterRo |-> FALSE,
+             gcSeen |-> Rec[l].gc, roSeen |-> Rec[l].ro]
   /\ UNCHANGED <<kind, n, l2v, hs, gcN, roN>>
 
 ----------------------------------------------------------------------------
 TrInit ==
   /\ kind = "bdd" /\ n = 0 /\ l2v = <<>> /\ hs = NoHandles /\ gcN = 0 /\ roN = 0
-  /\ l = 1 /\ nf = 0 /\ aux = AuxInit
+  /\ l = 1 /\ nf = 0 /\ aux = AuxInit /\ fl = <<>>
 
 TrNext ==
   \/ TrReset \/ TrAddVars \/ TrOp \/ TrCofNone \/ TrClone \/ TrDrop
   \/ TrGc \/ TrReorder \/ TrObs \/ TrSnap \/ TrAdopt \/ TrConstructMismatch
+  \/ TrRows \/ TrBegin
 
 TrSpec == TrInit /\ [][TrNext]_tvars
 
